@@ -134,6 +134,35 @@ theorem readAllFrag_spec (ops : List ROp) (e : Endian) (ps : List (List UInt8)) 
     rw [← a, ← b, ← c]
     exact ⟨a', by rw [b'], c', d'⟩
 
+theorem getStringFrag_spec (e : Endian) (ps : List (List UInt8)) (h : Live ps) :
+    (getStringFrag e ps).map (fun r => (r.1, r.2.flatten)) = getString .sock e ps.flatten ∧
+    ∀ r, getStringFrag e ps = some r → Live r.2 := by
+  obtain ⟨a, b, c⟩ := getScalarFrag_spec e .i32 ps h
+  obtain ⟨a', b', c'⟩ := sockRead_spec _ c (getScalarFrag e .i32 ps).1
+  unfold getStringFrag getString
+  simp only [sockReadBytes_eq]
+  by_cases h4 : ps.flatten.length < 4
+  · simp only [h4, if_true, Option.map_none]
+    exact ⟨trivial, fun r hr => by cases hr⟩
+  · simp only [h4, if_false]
+    by_cases h31 : (getScalarFrag e .i32 ps).1 ≥ 2 ^ 31
+    · have h31' := h31; rw [a] at h31'
+      simp only [h31, h31', if_true, Option.map_some, b]
+      exact ⟨trivial, fun r hr => by cases hr; exact c⟩
+    · have h31' := h31; rw [a] at h31'
+      simp only [h31, h31', if_false]
+      by_cases hl : (getScalarFrag e .i32 ps).2.flatten.length < (getScalarFrag e .i32 ps).1
+      · have hl' := hl; rw [a, b] at hl'
+        have hk : (Kind.sock == Kind.sock) = true := by decide
+        simp only [hl, hl', hk, if_true, Option.map_none]
+        exact ⟨trivial, fun r hr => by cases hr⟩
+      · have hl' := hl; rw [a, b] at hl'
+        have hk : (Kind.sock == Kind.sock) = true := by decide
+        simp only [hl, hl', hk, if_false, if_true, Option.map_some, a', b']
+        refine ⟨?_, fun r hr => ?_⟩
+        · rw [a, b]
+        · cases hr; exact c'
+
 theorem cutGo_spec (offs : List Nat) (bs : List UInt8) (i : Nat) :
     (cutGo offs i bs).flatten = bs ∧ Live (cutGo offs i bs) := by
   induction bs generalizing i with
